@@ -70,6 +70,33 @@ Theorem C10_fields_partition_line : forall d l, join_fields d (split_fields d l)
 Proof. exact join_split. Qed.
 Print Assumptions C10_fields_partition_line.
 
+(* -f LIST end to end (dedupe / shard / cache): with an accepted LIST, two lines containing all selected
+   fields get keys that are hash folds of piece lists which are equal exactly when the selected fields are *)
+Theorem C10_tool_key_depends_only_on_selected :
+  forall s rs seed d l1 l2, nonul s -> parse_key_spec s = Some rs ->
+  contains_all (Z.of_nat (length (split_fields d l1))) rs ->
+  contains_all (Z.of_nat (length (split_fields d l2))) rs ->
+  exists p1 p2, key_of seed l1 rs d = Some (hash_fold seed p1) /\ key_of seed l2 rs d = Some (hash_fold seed p2) /\
+                (p1 = p2 <-> select (split_fields d l1) rs = select (split_fields d l2) rs).
+Proof. exact tool_key_depends_only_on_selected_proof. Qed.
+Print Assumptions C10_tool_key_depends_only_on_selected.
+
+(* dedupe's shortcut for the whole-line key agrees with the field path; the tools' default lists select the whole line *)
+Theorem C10_dedupe_shortcut_consistent :
+  forall line d,
+  dedupe_key line [(0, kInfiniteEnd)] d = key_of dedupe_field_seed line [(0, kInfiniteEnd)] d /\
+  dedupe_key line [(0, kInfiniteEnd)] d = Some (murmur64a line 1).
+Proof. exact dedupe_shortcut_consistent_proof. Qed.
+Print Assumptions C10_dedupe_shortcut_consistent.
+
+Theorem C10_default_key_specs :
+  parse_key_spec dedupe_default_fields = Some [(0, kInfiniteEnd)] /\
+  parse_key_spec shard_default_fields = Some [(0, kInfiniteEnd)] /\
+  parse_key_spec cache_default_key = Some [(0, kInfiniteEnd)] /\
+  dedupe_default_delim = 9 /\ shard_default_delim = 9 /\ cache_default_separator = 9.
+Proof. exact default_key_specs_proof. Qed.
+Print Assumptions C10_default_key_specs.
+
 (* ---- non-vacuity *)
 Example C10_nonvacuous_trailing_delimiter :
   (* -f 2, TAB: "a\tb" and "x\tb\t" and "y\tb\t\tz" select the same field 2 and get the same pieces *)
@@ -104,3 +131,16 @@ Proof.
   { apply FL_one. apply (RI_closed [49] 1 [50] 2); unfold is_number, kInfiniteEnd; repeat split; try discriminate; try reflexivity; lia. }
   vm_compute. repeat split.
 Qed.
+
+(* IndividualFields hands every selected existing field to the callback by itself, in order
+   (lines with 2^32-1 or more fields, at least 4 GiB, are outside: `index` is an unsigned int) *)
+Theorem C10_individual_fields_is_cut :
+  forall line rs d, canonical rs -> Z.of_nat (length (split_fields d line)) <= kInfiniteEnd ->
+  individual_fields line rs d = IOk (spec_individual d line rs).
+Proof. exact individual_fields_spec_proof. Qed.
+Print Assumptions C10_individual_fields_is_cut.
+
+Example C10_nonvacuous_individual :
+  individual_fields [97; 9; 98; 9] [(0, 1); (2, kInfiniteEnd)] 9 = IOk [[97]; []] /\
+  spec_individual 9 [97; 9; 98; 9] [(0, 1); (2, kInfiniteEnd)] = [[97]; []].
+Proof. vm_compute. split; reflexivity. Qed.
